@@ -621,7 +621,7 @@ def udf_symlinks(cfg, rng):
     if not cfg.udf or cfg.rr:
         return None
     ops, sizes = [], {}
-    tg = ['foo', '/abs/path', '../up/x', 'a/b/c', '中文/файл', 'dir/\u65e5\u672c/x', 'é/ü', '/\u4e2d', 'x' * 100 + '/\u0444']
+    tg = ['foo', '/abs/path', '../up/x', 'a/b/c', '中文/файл', 'dir/\u65e5\u672c/x', 'é/ü', '/\u4e2d', 'x' * 100 + '/\u0444', 'a//b', 'trail/', 'c/./d//e/']
     for i, t in enumerate(tg):
         ops.append({'k': 'add_symlink_udf', 'iso': '/' + file_ident(cfg, i + 1, 8), 'udf': '/sym%d' % i, 'target': t})
     return ops, sizes
